@@ -130,6 +130,14 @@ Qed.
 Example C17_union_by_identity : run_pred tbl P_isuniontype (IClass k_Union) = Ok false.
 Proof. vm_compute. reflexivity. Qed.
 
+(* (repaired: unwrap() takes the arguments of the resolved qualifier; bare forms fall through) *)
+Example C17_unwrap_qualifier_behind_wrapper :
+  unwrap tbl (INewType "N" (IClassVar (IClass c_int))) = Ok (IClass c_int)
+  /\ unwrap tbl (IAlias "A" (IFinal (IClass c_int))) = Ok (IClass c_int)
+  /\ unwrap tbl (ISpecial SFinal) = Ok (ISpecial SFinal)
+  /\ unwrap tbl (IAlias "A" (INewType "N" (IFinal (IClassVar (ILiteral [LBool true]))))) = Ok (ILiteral [LBool true]).
+Proof. vm_compute. repeat split. Qed.
+
 Print Assumptions C17_tables_ok.
 Print Assumptions C17_agrees.
 Print Assumptions C17_total.
